@@ -125,8 +125,10 @@ CH_QUICK = [
   {'CONC': 1, 'OPS': '1,1,2,9,2,2', 'FIFO': 1, 'LATEEDGE': 1}, {'CONC': 2, 'OPS': '1,2,1,1,9,3,2', 'LATEEDGE': 1},
 ]
 def chain_words(n): return ['1,' + w for w in words('123', n, lambda q: 1 + q.count('1') >= 2 and 1 + q.count('1') <= 4)]
-CH_THOROUGH = CH_QUICK + [{'CONC': 1, 'OPS': o, 'FIFO': 1} for o in chain_words(5) + [w for w in chain_words(6) if w.count('1') == 3]] + [{'CONC': 2, 'OPS': o} for o in chain_words(5)] + \
-  [{'CONC': c, 'OPS': o} for c in (1, 2) for o in ('1,1,2,5,2,3,1', '1,2,1,1,3,5,2,2')]
+CH_THOROUGH = CH_QUICK + [{'CONC': 1, 'OPS': o, 'FIFO': 1} for o in chain_words(5) + chain_words(6)] + \
+  [{'CONC': 2, 'OPS': o} for o in chain_words(5) + [w for w in chain_words(6) if w.count('1') == 4]] + [{'CONC': 0, 'OPS': o} for o in chain_words(5)] + \
+  [{'CONC': c, 'OPS': o} for c in (1, 2) for o in ('1,1,2,5,2,3,1', '1,2,1,1,3,5,2,2')] + \
+  [{'CONC': c, 'OPS': o, 'LATEEDGE': 1} for c in (1, 2) for o in ('1,9,2,2,1,2', '1,1,1,9,2,3,2', '1,2,9,1,2,2', '1,1,9,2,1,3,2,2')]
 HARNESSES += [
   dict(COMMON, name='chain_queue_function', unit='chain', harness='h_chain.c', defines={'memset': 'vp_memset'}, scenarios_quick=CH_QUICK, scenarios_thorough=CH_THOROUGH,
        desc='two real nodes and the real edge between them: queue_node<int> -> function_node<int,int,rejecting> -> harness sink (symbolic answers). The function_node rejects while its slots '
@@ -135,7 +137,7 @@ HARNESSES += [
             'live body tasks + running bodies <= concurrency; every output offered exactly once; the edge is held by exactly one side between operations; graph wait count == live tasks (worker '
             'reference vertex); every live task spawned; at quiescence queue empty, everything processed, slot count 0, wait count 0; after cancel no body starts and the count still drains',
        bounds={'messages': 'quick <= 4, thorough <= 4', 'concurrency': '1, 2, unlimited', 'operations': 'quick: 7 hand-picked lists; thorough: every list "put" + 5 ops over {put, run oldest task, run newest task} with 2-4 puts '
-               '(serial and concurrency 2) and every such list with 6 more ops and exactly 3 puts (serial)', 'task order': 'concrete (oldest / newest) per op', 'values': 'symbolic, pairwise distinct'}),
+               '(serial, concurrency 2, unlimited), every such list with 6 more ops (serial; concurrency 2: those with 4 puts), late make_edge lists', 'task order': 'concrete (oldest / newest) per op', 'values': 'symbolic, pairwise distinct'}),
 ]
 
 MANIFEST = dict(
